@@ -5,7 +5,9 @@ Oracle: exact order of the decoded operand values (integers M*2^k compared exact
  (a) values.eq/neq/gt/gte/lt/lte on raw Integer/Single/Double patterns in all nine type pairings
      (volume), plus the mutual consistency of the implementation's own six answers, and
  (b) the BASIC level: PRINT A=B;A<>B;A<B;A>B;A<=B;A>=B and Session.evaluate of the relations, with
-     operands planted as raw bytes (CVS/CVD of string variables, typed variables).
+     operands planted as raw bytes (CVS/CVD of string variables, typed variables); every pair goes
+     through all 15 surface spellings (=, <>, ><, <, >, <=, =<, >=, => and the two-character ones
+     with inner blanks), the expected result coming from the exact order, not from the spelling.
 """
 import random
 import time
@@ -22,17 +24,20 @@ META = {
         'negation of > on the implementation\'s own answers. Seed-independent core: all pairs of a boundary table per type '
         '(range ends, adjacent representables, every zero encoding class) and cross-type tables; random pairs from nine '
         'classes (identical, adjacent, opposite sign, zero encodings, same exponent, byte-border mantissas, mixed types with '
-        'exactly / not exactly representable narrower value).'),
+        'exactly / not exactly representable narrower value). The BASIC-level leg evaluates every pair under all 15 surface '
+        'spellings of the relations (=, <>, ><, <, >, <=, =<, >=, =>, two-character ones also with inner blanks), so the '
+        'parser\'s operator table is covered for every operand type pair.'),
     'level_note': ('Trusted: Python integer arithmetic for the exact order, the harness. Nothing in this statement is left '
                    'unpinned for numeric operands; strings are not part of the property.'),
-    'rule': ('case = (left pattern, right pattern) with all six relations evaluated; distinct by the pair; non-trivial = '
+    'rule': ('case = (left pattern, right pattern) with all six relations evaluated (BASIC level: all 15 surface spellings of them); distinct by the pair; non-trivial = '
              'the two patterns are not both canonical zeros (directed blocks are duplicate-free by construction and '
              'counted by the enumerating loop; random pairs are hashed)'),
     'design_ref': 'DESIGN.md section 4 C06',
     'assumptions': ['MBF layout as documented in vf/models/rnum.py'],
     'require_counters': {'any': ['equal_values_seen', 'equal_values_different_bytes_seen', 'noncanonical_zero_seen',
                                  'adjacent_values_seen', 'opposite_sign_equal_magnitude_seen', 'mixed_type_pairs',
-                                 'mixed_inexact_seen', 'less_seen', 'greater_seen', 'basic_cases']},
+                                 'mixed_inexact_seen', 'less_seen', 'greater_seen', 'basic_cases',
+                                 'basic_unequal_pairs_all_spellings']},
     'timeout': {'quick': 900, 'thorough': 10800},
 }
 
@@ -112,15 +117,25 @@ def observe(res, a, b, c):
                 res.count('adjacent_values_seen')
 
 
-def judge(res, level, a, b, got):
-    """got: dict rel -> ('ok', bytes) | ('err', ...) | ('host', ...)"""
+# every surface spelling of each relation (the parser's operator table is part of the property):
+# (label used in keys, relation, source text). Inner blanks are legal between the two characters.
+SPELLINGS = [('eq', 'eq', b'='), ('neq', 'neq', b'<>'), ('lt', 'lt', b'<'), ('gt', 'gt', b'>'), ('lte', 'lte', b'<='), ('gte', 'gte', b'>='),
+             ('neq[><]', 'neq', b'><'), ('lte[=<]', 'lte', b'=<'), ('gte[=>]', 'gte', b'=>'),
+             ('neq[<_>]', 'neq', b'< >'), ('neq[>_<]', 'neq', b'> <'), ('lte[<_=]', 'lte', b'< ='), ('lte[=_<]', 'lte', b'= <'),
+             ('gte[>_=]', 'gte', b'> ='), ('gte[=_>]', 'gte', b'=  >')]
+API_FORMS = [(r, r, SYM[r]) for r in RELS]
+
+
+def judge(res, level, a, b, got, forms=API_FORMS):
+    """got: dict form-label -> ('ok', bytes) | ('err', ...) | ('host', ...); forms: (label, relation, text)"""
     pt = '%s-%s' % (TN[len(a)], TN[len(b)])
     c = order(a, b)
     exp = expected(c)
     observe(res, a, b, c)
     truth = {}
-    for rel in RELS:
-        g = got[rel]
+    for label, rel0, text in forms:
+        g = got[label]
+        rel = label
         if g[0] == 'host':
             res.violation('internal:%s@values.%s' % (g[1], rel), 'host exception %s comparing %s %s %s' % (g[2], a.hex(), rel, b.hex()), [rel, a, b])
             continue
@@ -130,8 +145,9 @@ def judge(res, level, a, b, got):
         if g[1] not in (TRUE, FALSE):
             res.violation('%s:%s:%s:result-not-minus-one-or-zero' % (level, rel, pt), '%s %s %s -> %s' % (a.hex(), rel, b.hex(), g[1].hex()), [rel, a, b])
             continue
-        truth[rel] = (g[1] == TRUE)
-        if truth[rel] != exp[rel]:
+        val = (g[1] == TRUE)
+        truth.setdefault(rel0, val)
+        if val != exp[rel0]:
             za = mbf.parts(a)[0] == 0 and len(a) != 2 and any(a[:-1])
             zb = mbf.parts(b)[0] == 0 and len(b) != 2 and any(b[:-1])
             if za or zb:
@@ -146,8 +162,8 @@ def judge(res, level, a, b, got):
                 mech = 'both-positive'
             res.violation('%s:%s:%s:wrong-on-%s' % (level, rel, pt, mech),
                           '%s (=%r) %s %s (=%r) -> %d, exact order says %d' % (
-                              a.hex(), float(mbf.frac(a)), SYM[rel].decode(), b.hex(), float(mbf.frac(b)),
-                              -1 if truth[rel] else 0, -1 if exp[rel] else 0), [rel, a, b])
+                              a.hex(), float(mbf.frac(a)), text.decode(), b.hex(), float(mbf.frac(b)),
+                              -1 if val else 0, -1 if exp[rel0] else 0), [rel, a, b])
     if len(truth) == 6:
         # consistency of the implementation's own answers (follows from the order if all six are right)
         if (truth['lt'] + truth['eq'] + truth['gt']) != 1:
@@ -321,22 +337,22 @@ def _basic(w, spec, rng, res):
                         box.set(sv.decode(), x)
                         ops.append((b'CVS(' if len(x) == 4 else b'CVD(') + sv + b')')
                 if mode == 0:
-                    # typed variables + one PRINT of all six relations
+                    # typed variables + one PRINT of every surface spelling
                     A = (b'A' if len(a) != 2 else b'K') + SIG[len(a)]
                     B = (b'B' if len(b) != 2 else b'L') + SIG[len(b)]
-                    out = box.ex(A + b'=' + ops[0] + b':' + B + b'=' + ops[1] + b':PRINT ' + b';'.join(A + SYM[r] + B for r in RELS))
+                    out = box.ex(A + b'=' + ops[0] + b':' + B + b'=' + ops[1] + b':PRINT ' + b';'.join(A + t + B for _, _, t in SPELLINGS))
                     toks = out.split()
-                    vals = toks if (len(toks) == 6 and all(t in (b'-1', b'0') for t in toks) and not harness.err_of(out)[0]) else None
+                    vals = toks if (len(toks) == len(SPELLINGS) and all(t in (b'-1', b'0') for t in toks) and not harness.err_of(out)[0]) else None
                     got = {}
-                    for k, r in enumerate(RELS):
+                    for k, (r, _, _) in enumerate(SPELLINGS):
                         if vals is None:
                             got[r] = ('err', 'output %r' % out)
                         else:
                             got[r] = ('ok', TRUE if vals[k] == b'-1' else FALSE)
                 else:
                     got = {}
-                    for r in RELS:
-                        v = box.ev(ops[0] + SYM[r] + ops[1])
+                    for r, _, t in SPELLINGS:
+                        v = box.ev(ops[0] + (t if mode == 1 else b' ' + t + b' ') + ops[1])
                         if isinstance(v, int) and not isinstance(v, bool) and v in (-1, 0):
                             got[r] = ('ok', TRUE if v == -1 else FALSE)
                         elif isinstance(v, int):
@@ -348,10 +364,13 @@ def _basic(w, spec, rng, res):
                 if type(e.exc).__name__ == 'Hang':
                     return
                 continue
-            judge(res, 'basic', a, b, got)
-            res.case((b'basic', a, b, mode == 0), nontrivial=bool(any(a) or any(b)))
-            res.evaluations += 5
+            judge(res, 'basic', a, b, got, SPELLINGS)
+            res.case((b'basic', a, b, mode), nontrivial=bool(any(a) or any(b)))
+            res.evaluations += len(SPELLINGS) - 1
+            res.count('basic_spellings_evaluated', len(SPELLINGS))
+            if order(a, b) != 0:
+                res.count('basic_unequal_pairs_all_spellings')
             res.count('basic_cases')
             if i < 2:
-                res.sample({'kind': 'basic', 'a': a.hex(), 'b': b.hex(), 'mode': 'PRINT of six relations on typed variables' if mode == 0 else 'evaluate',
+                res.sample({'kind': 'basic', 'a': a.hex(), 'b': b.hex(), 'mode': 'PRINT of all %d spellings on typed variables' % len(SPELLINGS) if mode == 0 else 'evaluate of every spelling',
                             'results': {k: repr(v) for k, v in got.items()}})
